@@ -79,9 +79,13 @@ def coq_deps(vfile, seen=None):
         return seen
     seen.add(vfile)
     src = strip_coq_comments(open(vfile).read())
-    for m in re.finditer(r"From\s+RV\s+Require\s+(?:Import|Export)?\s*([^.]*(?:\.[A-Za-z_][^.\s]*)*)\.", src):
+    for m in re.finditer(r"From\s+RV\s+Require\s+(?:Import\s+|Export\s+)?((?:[A-Za-z_][\w']*(?:\.[A-Za-z_][\w']*)*\s*)+)\.(?=\s|$)", src):
         for mod in m.group(1).split():
             p = os.path.join(COQ, mod.replace(".", "/") + ".v")
+            coq_deps(p, seen)
+    for m in re.finditer(r"(?<![\w.])Require\s+(?:Import\s+|Export\s+)?((?:RV\.[\w'.]+\s*)+)\.(?=\s|$)", src):
+        for mod in m.group(1).split():
+            p = os.path.join(COQ, mod[3:].replace(".", "/") + ".v")
             coq_deps(p, seen)
     return seen
 
